@@ -207,7 +207,7 @@ def _substitute(model, res):
             if not ok:
                 res.violation('R3', 'function:SUBSTITUTE:replace-all', m.where(f),
                               'without an instance number SUBSTITUTE must be text.replace(old, new); a trace returns %r' % (v,), func=f.name)
-    res.floor('SUBSTITUTE traces', n, 2)
+    res.soft_floor('SUBSTITUTE traces', n, 2)
     for label, newv in (('empty replacement', Const('')), ('blank replacement', Const(None))):
         outs = _runs(model, 'SUBSTITUTE', lambda newv=newv: [Sym('str', 'T'), Sym('str', 'O'), newv])
         for o in outs:
